@@ -39,7 +39,9 @@ type c19Filter struct {
 
 func c19Filters() []c19Filter {
 	var out []c19Filter
-	q := func(s string) string { return refmodel.SelText([]refmodel.Matcher{{Label: "x", Op: "=", Value: s}})[3:] } // quoted literal
+	q := func(s string) string {
+		return refmodel.SelText([]refmodel.Matcher{{Label: "x", Op: "=", Value: s}})[3:]
+	} // quoted literal
 	q = func(s string) string { return (&refmodel.LineFilter{Op: "|=", Value: s}).Text()[3:] }
 	for _, s := range []string{"", "a", "\xff", "é", "a|b", ".", "b ", "="} {
 		out = append(out, c19Filter{text: "|= " + q(s), neg: "!= " + q(s)})
